@@ -122,6 +122,13 @@ func Origins(v ssa.Value) []ssa.Value {
 			roots = append(roots, v)
 		case *ssa.UnOp:
 			if x.Op == token.MUL {
+				// load of a struct field just stored in the same block (store-to-load forwarding)
+				if fa, ok := x.X.(*ssa.FieldAddr); ok {
+					if fv := ForwardedFieldStore(x, fa); fv != nil {
+						rec(fv)
+						return
+					}
+				}
 				// load from a cell of this function: the stores that reach it
 				if al, ok := x.X.(*ssa.Alloc); ok {
 					sts, zero := ReachingStores(x)
@@ -552,4 +559,52 @@ func GuardedExactlyBy(target ssa.Instruction, pred func(Fact) bool) bool {
 		}
 	}
 	return false
+}
+
+// ForwardedFieldStore: ld loads field fa.Field of base fa.X; if an earlier
+// instruction of the same block stores to the same field of the same base
+// (structurally, also through a just-stored pointer field) and no call lies
+// in between, returns the stored value.
+func ForwardedFieldStore(ld *ssa.UnOp, fa *ssa.FieldAddr) ssa.Value {
+	b := ld.Block()
+	idx := -1
+	for i, in := range b.Instrs {
+		if in == ssa.Instruction(ld) {
+			idx = i
+		}
+	}
+	base := canonBase(fa.X, 0)
+	for i := idx - 1; i >= 0; i-- {
+		switch x := b.Instrs[i].(type) {
+		case *ssa.Store:
+			if fa2, ok := x.Addr.(*ssa.FieldAddr); ok && fa2.Field == fa.Field {
+				if b2 := canonBase(fa2.X, 0); b2 == base || SameVal(b2, base) {
+					return x.Val
+				}
+			}
+		case *ssa.Call:
+			if !InfoOf(&x.Call).Builtin {
+				return nil
+			}
+		case *ssa.Go, *ssa.Defer, *ssa.RunDefers:
+			return nil
+		}
+	}
+	return nil
+}
+
+// canonBase resolves a pointer value that was just loaded from a field into
+// which a local allocation had been stored (s.last = &frame{…}; s.last.err).
+func canonBase(v ssa.Value, depth int) ssa.Value {
+	if depth > 3 {
+		return v
+	}
+	if u, ok := v.(*ssa.UnOp); ok && u.Op == token.MUL {
+		if fa, ok := u.X.(*ssa.FieldAddr); ok {
+			if fv := ForwardedFieldStore(u, fa); fv != nil {
+				return canonBase(fv, depth+1)
+			}
+		}
+	}
+	return v
 }
